@@ -42,7 +42,9 @@ use serde_json::{Value, json};
 use tokio::sync::mpsc;
 
 pub mod c01;
+pub mod c02;
 pub mod c03;
+pub mod c05;
 pub mod work;
 
 pub const SCHEMA: &str = r#"
@@ -67,6 +69,8 @@ pub struct Node {
     /// private channel feeding the real clear_buffered_meta_loop
     pub clear_tx: CorroSender<(ActorId, RangeInclusive<CrsqlDbVersion>)>,
     pub clear_forwarded: u64,
+    /// clear requests emitted by the agent, not yet handed to the clear loop
+    pub pending_clears: Vec<(ActorId, RangeInclusive<CrsqlDbVersion>)>,
     pub tripwire_tx: mpsc::Sender<()>,
     // kept alive so senders inside the agent do not error
     _keep: (
@@ -166,6 +170,7 @@ pub async fn new_node_in(idx: usize, dir: tempfile::TempDir, opts: NodeOpts) -> 
         rx_changes,
         clear_tx,
         clear_forwarded: 0,
+        pending_clears: vec![],
         tripwire_tx,
         _keep: (rx_foca, rtt_rx, api_listeners),
         conf,
@@ -241,13 +246,17 @@ impl Node {
 
     /// deliver a batch through the real ingest function
     pub async fn deliver(&self, batch: Vec<(ChangeV1, ChangeSource)>) -> Result<(), String> {
+        self.deliver_with_timeout(batch, Duration::from_secs(60)).await
+    }
+
+    pub async fn deliver_with_timeout(&self, batch: Vec<(ChangeV1, ChangeSource)>, tx_timeout: Duration) -> Result<(), String> {
         let now = Instant::now();
         // own task: a panic inside the ingest path is an observation, not a harness crash
         let h = tokio::spawn(process_multiple_changes(
             self.agent.clone(),
             self.bookie.clone(),
             batch.into_iter().map(|(c, s)| (c, s, now)).collect(),
-            Duration::from_secs(60),
+            tx_timeout,
         ));
         match h.await {
             Ok(r) => r.map_err(|e| e.to_string()),
@@ -290,10 +299,18 @@ impl Node {
         Ok(out)
     }
 
+    /// move emitted clear requests into the harness-side pending list
+    pub fn poll_clears(&mut self) {
+        while let Ok(m) = self.rx_clear_buf.try_recv() {
+            self.pending_clears.push(m);
+        }
+    }
+
     /// forward pending clear requests to the real clear loop; returns how many were forwarded
     pub async fn forward_clears(&mut self) -> u64 {
+        self.poll_clears();
         let mut n = 0;
-        while let Ok(m) = self.rx_clear_buf.try_recv() {
+        for m in std::mem::take(&mut self.pending_clears) {
             if self.clear_tx.send(m).await.is_ok() {
                 n += 1;
             }
